@@ -387,7 +387,7 @@ def main(tier, seed):
                     pass
         return k, res, info
 
-    for k, res, info in run.pmap(one, range(ncases)):
+    for k, res, info in run.pmap_proc(one, range(ncases), chunk=4):
         ctx.count('%d|%s|%s|%s' % (info['acc'], ','.join(info['kinds']), info['shape'], ','.join(info['hist'])), nontrivial=info['nident'] >= 2 and info['grew'])
         ctx.bump('identified_linear_rows', info['nident'])
         ctx.bump('transfers_checked', info['transfers'])
